@@ -413,7 +413,52 @@ def unit_bounded(U):
                      cases, fails, distinct=distinct)
 
 
-UNITS = [("limit", unit_limit), ("region", unit_region), ("sqlmodel", unit_sqlmodel_validation), ("bounded", unit_bounded)]
+def unit_bounded_straddle(U):
+    """Bounded, systematic: SHORT and long features lying across a bin boundary (stored through the real create_db, so with the
+    bin the real code assigns), queried with intervals placed before / across / entirely beyond the boundary; limit= of
+    all_features / features_of_type / children and region(), overlap and completely_within, against the statement."""
+    import gffutils.feature as F_
+    fails, cases = [], 0
+    levels = (17, 20, 23, 26) if U.thorough else (17, 20, 26)
+    for L in levels:
+        B0 = 2 ** L
+        feats = [F_.Feature(seqid="c", source="s", featuretype="gene", start=1, end=4 * B0 if L < 26 else B0 + 10 ** 6, strand="+", attributes={"ID": ["top"]})]
+        k = 0
+        for d1 in (0, 1, 2, 60):
+            for d2 in (-1, 0, 1, 60, 2 ** 17 + 5):
+                if B0 - d1 > B0 + d2:
+                    continue
+                k += 1
+                feats.append(F_.Feature(seqid="c", source="s", featuretype="exon", start=B0 - d1, end=B0 + d2, strand="+", attributes={"ID": ["x%d" % k], "Parent": ["top"]}))
+        db = gffutils.create_db(feats, ":memory:")
+        qpts = [B0 - 70, B0 - 2, B0 - 1, B0, B0 + 1, B0 + 2, B0 + 59, B0 + 61, B0 + 2 ** 17 + 6]
+        for qs in qpts:
+            for qe in qpts:
+                if qe < qs:
+                    continue
+                for cw in (False, True):
+                    def want(pool):
+                        return sorted(f.id for f in pool if ((qs <= f.start and f.end <= qe) if cw else (f.start <= qe and f.end >= qs)))
+                    calls = [("all_features(limit)", lambda: db.all_features(limit=("c", qs, qe), completely_within=cw), feats),
+                             ("features_of_type('exon', limit)", lambda: db.features_of_type("exon", limit=("c", qs, qe), completely_within=cw), feats[1:]),
+                             ("children('top', limit)", lambda: db.children("top", limit=("c", qs, qe), completely_within=cw), feats[1:]),
+                             ("region", lambda: db.region(("c", qs, qe), completely_within=cw), feats)]
+                    for name, fn, pool in calls:
+                        cases += 1
+                        try:
+                            got = sorted(f.id for f in fn())
+                        except Exception as e:
+                            got = "raised %r" % (e,)
+                        exp = want(pool)
+                        if got != exp:
+                            missing = [i for i in exp if not isinstance(got, str) and i not in got]
+                            fails.append({"case": {"call": name, "interval": [qs, qe], "completely_within": cw, "boundary": "2**%d" % L,
+                                                   "features missing": [(f.id, f.start, f.end) for f in feats if f.id in missing][:4]}, "expected": exp, "observed": got})
+    U.bounded_result("C06.bounded.straddle", "features across a bin boundary are found by every overlapping / containing query, wherever the query lies relative to the boundary",
+                     "boundaries 2**17, 2**20, 2**26 (thorough + 2**23): 17 features starting 0..60 before and ending -1..2**17+5 after it x 45 query intervals x {overlap, within} x 4 entry points", cases, fails)
+
+
+UNITS = [("limit", unit_limit), ("region", unit_region), ("sqlmodel", unit_sqlmodel_validation), ("bounded", unit_bounded), ("bounded.straddle", unit_bounded_straddle)]
 
 
 def replay_file(doc):
